@@ -283,10 +283,9 @@ func TestVerifC03Data(t *testing.T) {
 			flat = append(flat, [2]int{ci, li})
 		}
 	}
-	mc.Run(t, mc.Config{ID: "C03", Name: "C03-data", MaxDev: -1, Params: params}, func(x *mc.X) {
+	mc.Run(t, mc.Config{ID: "C03", Name: "C03-data", MaxDev: -1, ShardLevels: 1, Params: params}, func(x *mc.X) {
 		// (geometry, length) is one flattened first choice so that shards balance
 		gl := flat[x.Choose(len(flat))]
-		x.Choose(1) // the driver shards on the first two choices; keep the second one constant so that shard = f(first choice) is uniform
 		conf := confs[gl[0]]
 		l := conf.lengths[gl[1]]
 		capacity := verifC03Cap(conf.segs)
